@@ -39,10 +39,10 @@ fn walk(ty: &syn::Type, via: &str, out: &mut Vec<(String, String)>) {
         _ => None,
       };
       if let Some(w) = wrapper {
-        // the strongest indirection on the way wins: value < option < box/vec/map
-        let next = if via == "value" || via == "option" { if w == "option" { via_max(via, "option") } else { w } } else { via };
+        // keep the whole wrapper chain: "value" | "option" | "option.box" | "vec.box" | …
+        let next = if via == "value" { w.to_string() } else { format!("{via}.{w}") };
         for a in args {
-          walk(a, next, out);
+          walk(a, &next, out);
         }
       } else {
         if segs.len() == 1 {
@@ -67,9 +67,6 @@ fn walk(ty: &syn::Type, via: &str, out: &mut Vec<(String, String)>) {
   }
 }
 
-fn via_max<'a>(a: &'a str, b: &'a str) -> &'a str {
-  if a == "value" { b } else { a }
-}
 
 fn type_edges(ty: &str) -> Vec<(String, String)> {
   let mut out = vec![];
